@@ -170,5 +170,65 @@ def accepted : List DOp → List Diff
 def commitment (pre014 : Bool) (s : St) : HTerm :=
   stateCommitment pre014 (Trie2.hashRoot .pedersen s.ctrie).1 (Trie2.hashRoot .poseidon s.cltrie).1
 
+/-! ## The abstract state (specification side)
+
+What the property calls "the resulting abstract state": plain total maps, independent of every trie
+and of the model's records. A state diff is applied by last-write-wins on each map; writing zero to
+a storage slot deletes it (zero = absent); a deployed contract starts with nonce 0 and empty storage
+(nothing to do: an address that holds no contract has them anyway). -/
+
+structure AbsSt where
+  cls : Path → HTerm              -- address -> class hash (0 = none)
+  nonce : Path → HTerm            -- address -> nonce
+  storage : Path → Path → HTerm   -- address -> slot -> value (0 = absent)
+  classes : Path → HTerm          -- class hash -> class-trie leaf value (0 = not declared)
+
+def AbsSt.empty : AbsSt := ⟨fun _ => .felt 0, fun _ => .felt 0, fun _ _ => .felt 0, fun _ => .felt 0⟩
+
+def setAt {α : Type} (m : Path → α) (k : Path) (v : α) : Path → α := fun p => if p = k then v else m p
+
+def absApply (a : AbsSt) (d : Diff) : AbsSt where
+  cls := d.replaced.foldl (fun m e => setAt m e.1 e.2) (d.deployed.foldl (fun m e => setAt m e.1 e.2) a.cls)
+  nonce := d.nonces.foldl (fun m e => setAt m e.1 e.2) a.nonce
+  storage := d.storage.foldl
+    (fun m e => setAt m e.1 (e.2.foldl (fun sm (kv : Path × HTerm) => setAt sm kv.1 kv.2) (m e.1))) a.storage
+  classes := (d.declared ++ d.migrated).foldl (fun m e => setAt m e.1 (classLeaf e.2)) a.classes
+
+/-- The abstract state after a sequence of accepted diffs. -/
+def absState (ds : List Diff) : AbsSt := ds.foldl absApply AbsSt.empty
+
+/-- The contract-trie leaf the Starknet OS assigns to a contract state
+(`get_contract_state_hash`): zero for the entirely empty state, else
+`H(H(H(class_hash, storage_root), nonce), 0)`. -/
+def protocolLeaf (cls storageRoot nonce : HTerm) : HTerm :=
+  if cls = .felt 0 ∧ storageRoot = .felt 0 ∧ nonce = .felt 0 then .felt 0
+  else contractLeaf cls storageRoot nonce
+
+/-- address -> protocol leaf of the abstract contract state -/
+def absContractLeaf (a : AbsSt) (addr : Path) : HTerm :=
+  protocolLeaf (a.cls addr) (Spec.root .pedersen 251 (a.storage addr)) (a.nonce addr)
+
+/-- **The Starknet state commitment of an abstract state** for a protocol version. -/
+def absCommitment (pre014 : Bool) (a : AbsSt) : HTerm :=
+  stateCommitment pre014 (Spec.root .pedersen 251 (absContractLeaf a)) (Spec.root .poseidon 251 a.classes)
+
+/-! ## The old-root check of `Update`
+
+`State.Update` first verifies `update.OldRoot` against `Commitment(header.ProtocolVersion)` — the
+version of the NEW block. `stored` is the root the previous block stored (computed under the previous
+block's version). `fixed = false` is the unchanged tree; `fixed = true` the proposed repair (the old root
+may also be the commitment under the formula of before 0.14.0). -/
+def oldRootOK (fixed pre014 : Bool) (stored : HTerm) (s : St) : Bool :=
+  commitment pre014 s == stored || (fixed && commitment true s == stored)
+
+/-- A chain: every block carries its version flag; the OldRoot of block n is the root stored for block
+n-1 (as the feeder gateway sends it and `Blockchain.Store` checks it). `none` = a block was rejected. -/
+def runStored (fixed : Bool) : List (Bool × Diff) → St × HTerm → Option (St × HTerm)
+  | [], st => some st
+  | (pre014, d) :: rest, (s, stored) =>
+    if oldRootOK fixed pre014 stored s then
+      (update true s d).bind (fun s' => runStored fixed rest (s', commitment pre014 s'))
+    else none
+
 end State
 end Juno.C01
